@@ -95,6 +95,9 @@ class Program:
         if not isinstance(t, tuple) or not t or _depth > 60:
             return t
         tag = t[0]
+        if tag == "fnref" and len(t) > 2 and t[2] and self.body(t[2]) is not None and self.body(t[2]).kind == "fn":
+            # a crate fn used as a function value is a closure without captures
+            return ("closure", t[2], ())
         if tag in ("int", "float", "bool", "char", "str", "unit", "param", "upvar", "zst",
                    "fnref", "unknown", "bytes"):
             return t
@@ -126,20 +129,30 @@ class Program:
                     return args[0]
                 if name in ("Clone::clone", "ToOwned::to_owned#never") and len(args) == 1:
                     return args[0]
-                if name in ("Borrow::borrow", "AsRef::as_ref") and len(args) == 1:
+                if name in ("Borrow::borrow", "AsRef::as_ref", "String::as_str", "Vec::as_slice") and len(args) == 1:
                     return args[0]
+                if name in ("std::cmp::max", "usize::max", "Ord::max", "core::cmp::max") and len(args) == 2:
+                    return ("call", "Ord::max", tuple(sorted(args, key=repr)))
+                if name in ("std::cmp::min", "usize::min", "Ord::min", "core::cmp::min") and len(args) == 2:
+                    return ("call", "Ord::min", tuple(sorted(args, key=repr)))
                 if name == "Option::unwrap_or" and len(args) == 2:
                     # copied()/cloned()/as_ref() do not change the value the default replaces
                     args = (_opt_transparent(args[0]), args[1])
                 if name == "Option::unwrap_or" and len(args) == 2 and args[1] == ("int", 0) and args[0][0] == "call" \
                         and args[0][1] == "usize::checked_sub":
                     return ("call", "usize::saturating_sub", args[0][2])
+                if name.startswith("cast_bool_to:") and len(args) == 1:
+                    return ("cast", "IntToInt", args[0], name.split(":", 1)[1])
                 if name in ("Cow::Borrowed", "Cow::Owned") and len(args) == 1:
                     # Cow::from(x) is the variant constructor
                     return ("adt", "std::borrow::Cow", name.split("::")[1], (("0", args[0]),))
                 if name == "Option::from_residual" and len(args) == 1:
                     # `opt?` on the None path returns None
                     return ("adt", "std::option::Option", "None", ())
+                if name.startswith("crate::<") and name.endswith(" as std::clone::Clone>::clone") and len(args) == 1:
+                    cbody = self.body(name)
+                    if cbody is not None and cbody.derived:
+                        return args[0]       # #[derive(Clone)]: a field-wise copy
                 acc = self.accessor(name) if name.startswith("crate::") else None
                 if acc is not None:
                     abody, term = acc
@@ -270,13 +283,46 @@ class Program:
                 lit2 = (lit[0], self.simp(lit[1], body), lit[2]) + tuple(lit[3:])
                 facts.extend(lit_to_facts(lit2))
             arms.append((p, self.simp(v, body), facts))
+        _UNSTRIP = {"str::starts_with": "str::strip_prefix", "str::ends_with": "str::strip_suffix"}
         for (p1, v1, f1), (p2, v2, f2) in (arms, arms[::-1]):
             for a, pol in f1:
+                if a[0] == "b" and pol and a[1][0] == "call" and a[1][1] in _UNSTRIP and (a, False) in f2:
+                    # `match x.strip_suffix(p) { Some(rest) => rest, None => d }` (its variant facts read as ends_with)
+                    o = ("call", _UNSTRIP[a[1][1]], a[1][2])
+                    if v1 == self.simp(("field", ("as", o, "Some"), "0"), body):
+                        r = self.simp(("call", "Option::unwrap_or", (o, v2)), body)
+                        memo[key] = r
+                        return r
                 if a[0] == "variant" and a[2] == "Some" and pol:
                     o = a[1]
                     none = any(b[0] == "variant" and b[1] == o and ((b[2] == "None") == q) for b, q in f2)
                     if none and v1 == ("field", ("as", o, "Some"), "0"):
                         r = self.simp(("call", "Option::unwrap_or", (o, v2)), body)
+                        memo[key] = r
+                        return r
+        # integer max / min / saturating_sub written as if/else
+        from .poly import poly as _poly, fact_nf, negate_cmp, GE0, GT0, is_int_poly, Poly
+        (p1, v1, f1), (p2, v2, f2) = arms
+        n1 = {fact_nf(f) for f in f1 if f[0][0] == "cmp"}
+        n2 = {fact_nf(f) for f in f2 if f[0][0] == "cmp"}
+        dist = [n for n in n1 if negate_cmp(n) in n2]
+        if dist:
+            a, b = _poly(v1), _poly(v2)
+            if is_int_poly(a) and is_int_poly(b) and not (v1[0] in ("adt", "tuple") or v2[0] in ("adt", "tuple")):
+                for n in dist:
+                    r = None
+                    if n in (GE0(a - b), GT0(a - b)):
+                        r = ("call", "Ord::max", tuple(sorted((v1, v2), key=repr)))
+                    elif n in (GE0(b - a), GT0(b - a)):
+                        r = ("call", "Ord::min", tuple(sorted((v1, v2), key=repr)))
+                    for (x, y, nx) in ((v1, v2, n), (v2, v1, negate_cmp(n))):
+                        # x = p - q on the arm where p >= q (or p > q), y = 0 on the other
+                        if y == ("int", 0) and x[0] == "bin" and x[1] == "Sub":
+                            d = _poly(x[2]) - _poly(x[3])
+                            if nx in (GE0(d), GT0(d)):
+                                r = ("call", "usize::saturating_sub", (x[2], x[3]))
+                    if r is not None:
+                        r = self.simp(r, body)
                         memo[key] = r
                         return r
         return None
